@@ -133,6 +133,18 @@ pub fn run(ctx: &mut Ctx) {
     let max = ctx.pick(300, 2000);
     let cases = ctx.cases(4000, 15);
     ctx.forall("dna_to_iupac_text", cases, gen::seq_spec(CodecId::Dna, max), conv);
+    let th = ctx.thorough();
+    let cases = ctx.cases(8, 8);
+    ctx.forall("dna_to_iupac_text_long", cases, gen::seq_spec_long(CodecId::Dna, th), conv);
+    for id in ALL_CODECS {
+        let m = id.model();
+        let cases = ctx.cases(5, 8);
+        let acc = m.accepted_bytes();
+        let st = (vec(c01::bad_char(m), 0..=3), gen::long_len(th), proptest::option::weighted(0.3, (any::<u16>(), c01::bad_char(m))), vec(c01::bad_char(m), 0..=3))
+            .prop_flat_map(move |(lead, n, bad, trail)| (Just(lead), vec(proptest::sample::select(acc.clone()), n), Just(bad), Just(trail)))
+            .prop_map(move |(lead, body, bad, trail)| Trim { lead, body: c01::Case { codec: id, body, bad: bad.into_iter().collect() }, trail });
+        ctx.forall(&format!("trim_long/{}", id.name()), cases, st, dispatch_trim);
+    }
     ctx.each("text_to_dna_all_bytes", (0..=255u8).collect::<Vec<u8>>(), text_to_dna);
     let max = ctx.pick(150, 1000);
     for id in ALL_CODECS {
